@@ -31,6 +31,9 @@ func TestCorpus(t *testing.T) { vh.Corpus(t) }
 //	dup      A = unit index: the unit is sent twice
 //	drop     A = unit index: the unit is left out
 //	recsize  U = new value of the 8-octet record-size field
+//	reframe  U = new value of the record-size field AND the stream cut to A octets: the attacker
+//	         re-frames the same octets, e.g. presents "record_0 || proof(1)" as one final record
+//	         (the second-preimage attempt the 0/1 flag exists to stop)
 //	setproof A = proof index (1..records-1) replaced by filler from Seed
 //	splice   first A octets of the honest stream, rest from the honest stream of the payload with bit B flipped
 //	replace  the whole stream is replaced by Bytes (arbitrary stream)
@@ -169,6 +172,13 @@ func (m Mut) apply(draft int, p []byte, rs int, honest []byte) (out []byte, ok b
 			return nil, false
 		}
 		out = clone()
+		copy(out, be64(m.U))
+		return out, true
+	case "reframe":
+		if len(honest) < 8 || m.A < 8 || m.A > len(honest) {
+			return nil, false
+		}
+		out = clone()[:m.A]
 		copy(out, be64(m.U))
 		return out, true
 	case "replace":
@@ -310,6 +320,9 @@ func check(c Case, r *vh.R) {
 			r.Class("truncate-at-record-boundary")
 			r.Class("truncate-after-record-octets")
 		}
+	}
+	if c.Mut.Kind == "reframe" && nrec >= 2 && c.Mut.A == 8+rs+refmice.ProofLen && c.Mut.U >= uint64(rs+refmice.ProofLen) && c.Mut.U <= c.MaxRS {
+		r.Class("reframe-first-unit-as-final-record")
 	}
 	if c.Mut.Kind == "flip" {
 		off := c.Mut.A / 8
@@ -582,6 +595,17 @@ func TestExhaustiveMutations(t *testing.T) {
 								}
 							}
 						}
+						unitEnds, recordEnds := refmice.UnitEnds(draft, l, rs)
+						for _, u := range dedupInts([]int{rs + 31, rs + 32, rs + 33, 2*rs + 64, hl - 8, hl, 16384}) {
+							for _, cut := range dedupInts(append(append([]int{hl}, unitEnds...), recordEnds...)) {
+								if u == 0 {
+									continue
+								}
+								if !run(Mut{Kind: "reframe", U: uint64(u), A: cut}, 16384) {
+									return
+								}
+							}
+						}
 						for a := 0; a < nrec; a++ {
 							for b := a + 1; b < nrec; b++ {
 								if !run(Mut{Kind: "swap", A: a, B: b}, 16384) || !run(Mut{Kind: "swapunit", A: a, B: b}, 16384) {
@@ -600,7 +624,7 @@ func TestExhaustiveMutations(t *testing.T) {
 			}
 		}
 	}
-	vh.Exhaustive("exh", fmt.Sprintf("drafts {02,03} x record size %v x payload lengths {0,1,rs-1,rs,rs+1,2rs,2rs+1,3rs%s} x %d payload filling(s); for each honest stream: EVERY single-bit flip, EVERY truncation length, appended suffixes of {1,31,32,33,rs,rs+32} octets (zero and random), every record swap / unit swap / unit duplication / unit removal / proof replacement, record-size field set to {0,1,rs-1,rs+1,16384,16385,2^63,2^64-1} and the honest stream under limits {16384,rs-1,rs,rs+1}: %d streams, %d decodes in this process (shard %d of %d)",
+	vh.Exhaustive("exh", fmt.Sprintf("drafts {02,03} x record size %v x payload lengths {0,1,rs-1,rs,rs+1,2rs,2rs+1,3rs%s} x %d payload filling(s); for each honest stream: EVERY single-bit flip, EVERY truncation length, appended suffixes of {1,31,32,33,rs,rs+32} octets (zero and random), every record swap / unit swap / unit duplication / unit removal / proof replacement, re-framing (record-size field set to {rs+31,rs+32,rs+33,2rs+64,len-8,len,16384} and the stream cut at every unit end / record end / not at all), record-size field set to {0,1,rs-1,rs+1,16384,16385,2^63,2^64-1} and the honest stream under limits {16384,rs-1,rs,rs+1}: %d streams, %d decodes in this process (shard %d of %d)",
 		sizes, map[bool]string{false: "", true: ",2rs-1,3rs-1,3rs+1,4rs,5rs"}[vh.Thorough()], fills, nStreams, nCases, shard, shards))
 }
 
@@ -668,7 +692,7 @@ func TestPropMutation(t *testing.T) {
 		hl := honestLen(c.Draft, c.Len, rs)
 		nrec := (c.Len + rs - 1) / rs
 		unit := rs + refmice.ProofLen
-		kind := rapid.SampledFrom([]string{"flip", "flip", "flip", "trunc", "trunc", "trunc", "append", "swap", "swapunit", "dup", "drop", "recsize", "setproof", "splice", "none"}).Draw(t, "mutation")
+		kind := rapid.SampledFrom([]string{"flip", "flip", "flip", "trunc", "trunc", "trunc", "append", "swap", "swapunit", "dup", "drop", "recsize", "reframe", "reframe", "setproof", "splice", "none"}).Draw(t, "mutation")
 		m := Mut{Kind: kind}
 		idx := func(label string) int {
 			if nrec <= 1 {
@@ -751,6 +775,26 @@ func TestPropMutation(t *testing.T) {
 			m.U = rapid.SampledFrom(cands).Draw(t, "size")
 			if rapid.IntRange(0, 3).Draw(t, "any-size") == 0 {
 				m.U = rapid.Uint64().Draw(t, "size-any") >> uint(rapid.IntRange(0, 63).Draw(t, "size-shift"))
+			}
+		case "reframe":
+			if hl < 9 {
+				m.Kind = "none"
+				break
+			}
+			m.U = uint64(rapid.SampledFrom([]int{unit, unit + 1, unit - 1, 2 * unit, hl - 8, 16384}).Draw(t, "frame"))
+			if rapid.IntRange(0, 3).Draw(t, "any-frame") == 0 {
+				m.U = uint64(rapid.IntRange(1, 16384).Draw(t, "frame-any"))
+			}
+			switch rapid.IntRange(0, 2).Draw(t, "cut") {
+			case 0:
+				m.A = 8 + unit
+			case 1:
+				m.A = 8 + (idx("unit")+1)*unit
+			default:
+				m.A = hl
+			}
+			if m.A > hl {
+				m.A = hl
 			}
 		case "splice":
 			if c.Len == 0 {
